@@ -7,5 +7,6 @@ run() { # <label> <diff> <check>
   out=$(tools/try_patch.sh "$2" "$3" quick 1500 2>&1)
   if echo "$out" | grep -q "^VIOLATION property=$3"; then echo "caught  $1 by $3: $(echo "$out" | grep '^signature:' | head -1 | cut -c12-120)"; else echo "MISSED  $1 by $3: $(echo "$out" | tail -2 | tr '\n' ' ' | cut -c1-200)"; fi
 }
-for d in seeded/*/; do id=$(basename $d); c=${id:0:3}; [ -f $d/patch.diff ] && run "seeded/$id" "$d/patch.diff" "$c"; done
-for f in mutants/*.diff; do n=$(basename $f .diff); c=${MUT[$n]:-}; [ -n "$c" ] && run "mutants/$n" "$f" "$c" || echo "skip $n (no check mapped)"; done
+FILTER="${1:-.}"   # optional regex on the check id, e.g. 'C2[0-9]'
+for d in seeded/*/; do id=$(basename $d); c=${id:0:3}; echo "$c" | grep -Eq "$FILTER" || continue; [ -f $d/patch.diff ] && run "seeded/$id" "$d/patch.diff" "$c"; done
+for f in mutants/*.diff; do n=$(basename $f .diff); c=${MUT[$n]:-}; echo "$c" | grep -Eq "$FILTER" || continue; [ -n "$c" ] && run "mutants/$n" "$f" "$c" || echo "skip $n (no check mapped)"; done
